@@ -61,7 +61,7 @@ def step(flmax, nblocks, nmax):
         core.FUEL.set(nblocks + 4)
         m, FL, k, d, F, P, total, f, u = _state(flmax, nblocks)
         n = sym_int('n', 1, nmax)
-        rp = {'kind': 'reads', 'args': {'FL': ev(FL), 'reads': [ev(d), ev(n)]}}
+        rp = {'kind': 'reads', 'args': {'FL': ev(FL), 'reads': [ev(d), ev(n), 7, None]}}
         try:
             out = u.read(n)
         except core.OutOfFuel:
